@@ -142,6 +142,19 @@ func main() {
 		w := loadAll()
 		allOK := true
 		for _, name := range w.LemmaOrd {
+			for _, a := range fs.Args() {
+				if strings.HasPrefix(name, a) {
+					for _, st := range w.Lemmas[name].Steps {
+						if strings.Contains(st.Text, "emitted.") && w.Emitted == nil {
+							if err := w.LoadEmitted(); err != nil {
+								fmt.Println("emitted:", err)
+							}
+						}
+					}
+				}
+			}
+		}
+		for _, name := range w.LemmaOrd {
 			match := len(fs.Args()) == 0
 			for _, a := range fs.Args() {
 				if strings.HasPrefix(name, a) {
